@@ -22,9 +22,76 @@ def client_classes() -> list:
     return [by_id[i] for i in sorted(by_id) if src[by_id[i].__name__] != 1 and i not in (1, 3, 5, 6)]
 
 
+def run_early(case: dict) -> CaseResult:
+    """Batches handed to the connection while the hello/login exchange is still outstanding (the framing handshake
+    is complete, the device has not answered yet): every batch is written like any other."""
+    import base64
+
+    from aioesphomeapi import api_pb2 as pb
+
+    from vf.life import KEY
+    from vf.simnet import D, Env, make_client
+
+    res = CaseResult()
+    noise = bool(case.get("noise"))
+    env = Env(noise_key=KEY if noise else None)
+    env.dev.auto = set()  # never answers the API hello (the Noise handshake itself is answered)
+    cli = make_client(env, noise_psk=base64.b64encode(KEY).decode() if noise else None)
+    idof = wire.ids()[1]
+    expected: list = []
+    marks: list = []
+
+    def send_all():
+        conn = cli._connection
+        tr = env.dev.session.transport if env.dev.session else None
+        if conn is None or tr is None or conn.connection_state.name != "HANDSHAKE_COMPLETE":
+            raise HarnessError(f"C02 early: connection not in the login phase ({conn and conn.connection_state.name})")
+        env.log("early_begin")
+        for batch in case["batches"]:
+            msgs = tuple(pbgen.build(getattr(pb, n), spec) for n, spec in batch)
+            n0 = tr.n_writes
+            conn.send_messages(msgs)
+            marks.append((tr.n_writes - n0, len(msgs)))
+            expected.extend((idof[type(m)], m.SerializeToString()) for m in msgs)
+        env.log("batches_done")
+        env.spawn("final", cli.disconnect(force=True))
+
+    env.loop.sim_at(0, lambda: env.spawn("main", cli.connect(login=bool(case.get("login", True)))))
+    env.loop.sim_at(1.0, send_all)
+    env.loop.horizon = START + 60
+    try:
+        env.run()
+    except IterationCap as e:
+        env.close()
+        raise HarnessError(f"C02 api early: {e}") from e
+    for i, (nw, nm) in enumerate(marks):
+        if nw != 1:
+            res.violations.append(Violation(ID, "c02:api:writes-per-batch", f"(login pending) batch {i} with {nm} messages caused {nw} transport writes"))
+            break
+    c0 = next((e["seq"] for e in env.trace if e["kind"] == "early_begin"), None)
+    c1 = next((e["seq"] for e in env.trace if e["kind"] == "batches_done"), 10**9)
+    if c0 is None:
+        env.close()
+        raise HarnessError("C02 early: batches were not sent")
+    got = [(e["type"], e["payload"]) for e in env.trace if e["kind"] == "rx" and c0 < e["seq"] < c1]
+    errs = [e["text"] for e in env.trace if e["kind"] == "device_wire_error"]
+    if errs:
+        res.violations.append(Violation(ID, "c02:api:undecodable-on-device", f"{errs[:2]}"))
+    elif got != expected and not res.violations:
+        k = next((i for i, (a, b) in enumerate(zip(got, expected)) if a != b), min(len(got), len(expected)))
+        res.violations.append(Violation(ID, "c02:api:frames-differ", f"(login pending) frame {k}: device decoded {[(t, p.hex()[:16]) for t, p in got[k:k + 2]]}, expected {[(t, p.hex()[:16]) for t, p in expected[k:k + 2]]} ({len(got)} vs {len(expected)} frames)"))
+    res.classes = ["api", "sent_while_login_pending"] + (["noise"] if noise else ["plain"]) + (["batch_ge_2"] if any(nm > 1 for _, nm in marks) else [])
+    res.nontrivial = True
+    res.info = {"batches": len(marks), "frames": len(expected)}
+    env.close()
+    return res
+
+
 def run_case(case: dict) -> CaseResult:
     from aioesphomeapi import api_pb2 as pb
 
+    if case.get("early"):
+        return run_early(case)
     res = CaseResult()
     noise = bool(case.get("noise"))
     s = Session(noise=noise, keepalive=512.0, auto=set())
@@ -99,6 +166,7 @@ def run_case(case: dict) -> CaseResult:
 @st.composite
 def _case(draw, tier):
     classes = client_classes()
+    names_ok = {c.__name__ for c in classes}
     batches = []
     for _ in range(draw(st.integers(1, 10))):
         batch = []
@@ -108,6 +176,8 @@ def _case(draw, tier):
         if draw(st.integers(0, 7)) == 3:
             batch.insert(draw(st.integers(0, len(batch))), [draw(st.sampled_from(["BluetoothServiceData", "ExecuteServiceArgument", "VoiceAssistantAudioSettings"])), {}])
         batches.append(batch)
+    if draw(st.integers(0, 5)) == 2:
+        return {"mode": "api", "early": True, "login": draw(st.booleans()), "noise": draw(st.booleans()), "batches": [[b for b in bt if b[0] in names_ok] or [[classes[0].__name__, {}]] for bt in batches]}
     return {"mode": "api", "noise": draw(st.booleans()), "single_api": draw(st.booleans()), "batches": batches}
 
 
@@ -121,6 +191,8 @@ def enumerated(tier):
         for lo in range(0, len(names), 6):
             yield {"mode": "api", "noise": noise, "batches": [[[n, {}] for n in names[lo:lo + 3]], [[n, {}]] if False else [[n, {}] for n in names[lo + 3:lo + 6]] or [[names[0], {}]]]}
         yield {"mode": "api", "noise": noise, "single_api": True, "batches": [[[n, {}]] for n in names[:12]]}
+        for lo in range(0, len(names), 8):
+            yield {"mode": "api", "early": True, "noise": noise, "batches": [[[n, {}] for n in names[lo:lo + 2]], [[n, {}]] if False else [[n, {}] for n in names[lo + 2:lo + 8]] or [[names[0], {}]]]}
         for pos in (0, 1, 2):
             bad = [[n, {}] for n in names[:2]]
             bad.insert(pos, ["BluetoothServiceData", {}])
